@@ -38,7 +38,8 @@ PARTIAL = []
 
 
 def harness_specs(tier):
-    return [dict(name='h_c14_probe', src='h_c14_probe.cpp', flavour='fast')]
+    return ([dict(name='h_c14_probe', src='h_c14_probe.cpp', flavour='fast')] +
+            [dict(name='h_c14_ext%d' % g, src='h_c14_ext.cpp', flavour='fast', extra=['-DC14_GROUP=%d' % g]) for g in EXT_GROUPS])
 
 
 # ---------------------------------------------------------------------------------------------------------------
@@ -189,8 +190,326 @@ def probe_cases(tier, rng):
                                tags=['probe', 'attrs=%d' % na, 'chunks=%d' % len(cs)])
 
 
+# ---------------------------------------------------------------------------------------------------------------
+# extraction on view trees: programs, NumPy semantics of the tree nodes, symbolic-term evaluation
+# ---------------------------------------------------------------------------------------------------------------
+def leaf(shape, j, data):
+    n = prod(shape)
+    k = np.arange(n, dtype=np.int64)
+    if data == 'cond' and j == 0:
+        v = (k % 3 != 1).astype(np.int64)
+    else:
+        v = k + 1000 * j
+    return v.reshape(shape)
+
+
+OPS = {
+    'transpose': lambda x, p: np.transpose(x[0], p['axes']),
+    'reduce_add': lambda x, p: np.sum(x[0], axis=p['axis']),
+    'reduce_max_keep': lambda x, p: np.max(x[0], axis=p['axis'], keepdims=True),
+    'accumulate_add': lambda x, p: np.cumsum(x[0], axis=p['axis']),
+    'flip': lambda x, p: np.flip(x[0], p['axis']),
+    'tile': lambda x, p: np.tile(x[0], p['reps']),
+    'add': lambda x, p: x[0] + x[1],
+    'multiply': lambda x, p: x[0] * x[1],
+    'subtract': lambda x, p: x[0] - x[1],
+    'negative': lambda x, p: -x[0],
+    'matmul': lambda x, p: np.matmul(x[0], x[1]),
+    'concatenate': lambda x, p: np.concatenate([x[0], x[1]], p['axis']),
+    'concatenate0': lambda x, p: np.concatenate([x[0], x[1]], 0),
+    'where': lambda x, p: np.where(x[0] != 0, x[1], x[2]),
+    'bcast': lambda x, p: np.broadcast_to(x[0], p['bshape']),
+    'reshape_v': lambda x, p: x[0].reshape(1, -1) if x[0].ndim == 1 else x[0],
+}
+
+
+def eval_term(t, env, params):
+    """t: parsed term over leaves `x<i>` / `<i>` / `a<i>`"""
+    name, args = t
+    if not args:
+        m = re.fullmatch(r'[xa]?(\d+)', name)
+        return env[int(m.group(1))]
+    return OPS[name]([eval_term(a, env, params) for a in args], params)
+
+
+def tree_leaves(t):
+    name, args = t
+    if not args:
+        return [int(re.fullmatch(r'[xa]?(\d+)', name).group(1))]
+    return [l for a in args for l in tree_leaves(a)]
+
+
+def tree_depth(t):
+    return 0 if not t[1] else 1 + max(tree_depth(a) for a in t[1])
+
+
+def rshape(rng, min_rank=1, max_rank=4, max_extent=4, cap=30):
+    while True:
+        s = [rng.randint(1, max_extent) for _ in range(rng.randint(min_rank, max_rank))]
+        if prod(s) <= cap:
+            return s
+
+
+def bpartner(rng, s):
+    k = rng.randint(0, len(s) - 1) if len(s) > 1 else 0
+    t = [e if rng.random() < 0.6 else 1 for e in s[k:]]
+    return t if t else [1]
+
+
+def perm(rng, n):
+    p = list(range(n)); rng.shuffle(p); return p
+
+
+def _ext_progs():
+    pr = {}
+
+    def add(name, group, tree, gen, graph=False, nonfirst=False, bview=False, sibling=False, data='prov'):
+        # nonfirst: a view operand that is not the first operand; bview: binary ufunc over a view operand (dangling reference);
+        # sibling: two sibling sub-views over un-aliased leaves (compute-graph node ids collide)
+        pr[name] = dict(group=group, tree=tree, gen=gen, graph=graph, nonfirst=nonfirst, bview=bview, sibling=sibling, data=data)
+
+    def g_tr(rng):
+        s = rshape(rng); return [s], dict(axes=perm(rng, len(s)))
+    def g_axis(rng):
+        s = rshape(rng, min_rank=2); return [s], dict(axis=rng.randrange(len(s)))
+    def g_bin(rng):
+        s = rshape(rng); t = bpartner(rng, s); return ([s, t] if rng.random() < 0.5 else [t, s]), {}
+    def g_tri(rng):
+        s = rshape(rng); sh = [s, bpartner(rng, s), bpartner(rng, s)]; rng.shuffle(sh); return sh, {}
+    def g_quad(rng):
+        s = rshape(rng); sh = [s, bpartner(rng, s), bpartner(rng, s), bpartner(rng, s)]; rng.shuffle(sh); return sh, {}
+    def g_matmul(rng):
+        m, k, n = rng.randint(1, 4), rng.randint(1, 4), rng.randint(1, 4); return [[m, k], [k, n]], {}
+    def g_concat(rng):
+        s = rshape(rng, cap=18); ax = rng.randrange(len(s)); t = list(s); t[ax] = rng.randint(1, 3); return [s, t], dict(axis=ax)
+    def g_where(rng):
+        s = rshape(rng, cap=24); sh = [bpartner(rng, s), s, bpartner(rng, s)]; return sh, dict(bshape=s)
+    def g_vstack(rng):
+        s = rshape(rng, cap=18)
+        if len(s) == 1:
+            return [s, list(s)], {}
+        t = list(s); t[0] = rng.randint(1, 3); return [s, t], {}
+    def g_bin_axis(rng):
+        s = rshape(rng, min_rank=2); return [s, bpartner(rng, s)], dict(axis=rng.randrange(len(s)))
+    def g_bin_axes(rng):
+        s = rshape(rng); return [s, bpartner(rng, s)], dict(axes=perm(rng, len(s)))
+    def g_tr_axis(rng):
+        s = rshape(rng); return [s], dict(axes=perm(rng, len(s)), axis=rng.randrange(len(s)))
+    def g_add_tr(rng):
+        s = rshape(rng); ax = perm(rng, len(s)); ts = [s[i] for i in ax]; return [s, bpartner(rng, ts)], dict(axes=ax)
+    def g_bin_axes_axis(rng):
+        s = rshape(rng, min_rank=2); return [s, bpartner(rng, s)], dict(axes=perm(rng, len(s)), axis=rng.randrange(len(s)))
+    def g_ftt(rng):
+        s = rshape(rng, cap=12); return [s], dict(axes=perm(rng, len(s)), reps=[rng.randint(1, 2) for _ in s], axis=rng.randrange(len(s)))
+    def g_same3(rng):
+        s = rshape(rng, cap=12); return [s, list(s), list(s)], {}
+    def g_same4(rng):
+        s = rshape(rng, cap=12); return [s, list(s), list(s), list(s)], {}
+
+    add('transpose', 1, 'transpose(0)', g_tr, graph=True)
+    add('reduce_add', 1, 'reduce_add(0)', g_axis, graph=True)
+    add('add', 1, 'add(0,1)', g_bin, graph=True)
+    add('negative', 1, 'negative(0)', lambda rng: ([rshape(rng)], {}))
+    add('matmul', 1, 'matmul(0,1)', g_matmul)
+    add('concatenate', 1, 'concatenate(0,1)', g_concat)
+    add('where', 1, 'where(bcast(0),bcast(1),bcast(2))', g_where, nonfirst=True, data='cond')
+    add('vstack', 1, 'concatenate0(reshape_v(0),reshape_v(1))', g_vstack, nonfirst=True)
+    add('neg_add', 1, 'negative(add(0,1))', g_bin, graph=True)
+    add('sum_mul', 1, 'reduce_add(multiply(0,1))', g_bin_axis)
+    add('tr_add', 1, 'transpose(add(0,1))', g_bin_axes, graph=True)
+    add('cumsum_tr', 1, 'accumulate_add(transpose(0))', g_tr_axis)
+    add('add_tr', 2, 'add(transpose(0),1)', g_add_tr, bview=True)
+    add('add_mul2', 2, 'add(0,multiply(1,2))', g_tri, graph=True, nonfirst=True)
+    add('neg_add_mul', 2, 'negative(add(multiply(0,1),2))', g_tri, graph=True, bview=True)
+    add('tr_neg_add', 2, 'transpose(negative(add(0,1)))', g_bin_axes)
+    add('sum_tr_mul', 2, 'reduce_add(transpose(multiply(0,1)))', g_bin_axes_axis)
+    add('flip_tile_tr', 2, 'flip(tile(transpose(0)))', g_ftt)
+    add('neg_sub_max', 2, 'negative(subtract(0,reduce_max_keep(0)))', g_axis, nonfirst=True)
+    add('add_mm', 2, 'add(multiply(0,1),multiply(2,3))', g_quad, graph=True, nonfirst=True, sibling=True)
+    add('add_ms', 2, 'add(multiply(0,1),subtract(2,3))', g_quad, graph=True, nonfirst=True, sibling=True)
+    add('d4_neg_tr_neg_add', 3, 'negative(transpose(negative(add(0,1))))', g_bin_axes, graph=True)
+    add('d4_sum_tr_neg_mul', 3, 'reduce_add(transpose(negative(multiply(0,1))))', g_bin_axes_axis)
+    add('d4_flip_tile_tr_neg', 3, 'flip(tile(transpose(negative(0))))', g_ftt)
+    add('d4_cumsum_neg_tr_add', 3, 'accumulate_add(negative(transpose(add(0,1))))', g_bin_axes_axis)
+    add('rep_neg_add_mul', 3, 'negative(add(multiply(0,1),1))', lambda rng: (lambda s: ([s, bpartner(rng, s)], {}))(rshape(rng)), graph=True, bview=True)
+    add('al_add_mm', 4, 'add(multiply(a0,a1),multiply(a1,a2))', g_same3, graph=True, nonfirst=True)
+    add('al_neg_add_mul', 4, 'negative(add(multiply(a0,a1),a1))', g_same3, graph=True, bview=True)
+    add('al_add_mul2', 4, 'add(a0,multiply(a1,a2))', g_same3, graph=True, nonfirst=True)
+    return pr
+
+
+EXT = _ext_progs()
+EXT_GROUPS = [1, 2, 3, 4]
+
+
+def parse_kv(ans):
+    d = {}
+    for kv in ans.split()[1:]:
+        if '=' in kv:
+            k, v = kv.split('=', 1); d[k] = v
+    return d
+
+
+def fmt_arr(x):
+    x = np.asarray(x)
+    return fmt(list(x.shape)) + '|' + fmt([int(v) for v in x.reshape(-1)])
+
+
+def make_extract_cmp(env, params):
+    """answers are compared on the keys both sides know: leaves, nfun, result (= what extraction + apply computes),
+    host (= host evaluation of the view).  Symbolic terms (Lean model) are evaluated with NumPy here."""
+    def canon(ans):
+        if not ans.startswith('ok '):
+            return {'raw': ans}
+        d = parse_kv(ans); c = {'leaves': d.get('leaves')}
+        if 'nfun' in d:
+            c['nfun'] = d['nfun']
+        if 'term' in d:          # model: symbolic
+            for key, src in (('result', 'term'), ('host', 'view')):
+                try:
+                    c[key] = fmt_arr(eval_term(parse_term(d[src]), env, params))
+                except Exception as e:
+                    c[key] = 'error'
+        else:
+            if 'adata' in d:
+                c['result'] = d['ashape'] + '|' + d['adata']
+            if 'data' in d:
+                c['host'] = d['shape'] + '|' + d['data']
+            if 'result' in d:    # oracle
+                c['result'] = d['result']; c['host'] = d['result']
+        return c
+
+    def cmp(a, b):
+        ca, cb = canon(a), canon(b)
+        if 'raw' in ca or 'raw' in cb:
+            return a == b
+        return all(ca[k] == cb[k] for k in ca if k in cb)
+    return cmp
+
+
+def canon_graph(ans):
+    """isomorphism-invariant form of a compute graph answer: multiset of node signatures + edge consistency"""
+    if not ans.startswith('ok '):
+        return ans
+    d = parse_kv(ans)
+    nodes = {}
+    for n in d['nodes'].split(','):
+        k, lab = n.split(':', 1)
+        if lab.startswith('L'):
+            nodes[k] = ('L', lab[1:])
+        else:
+            m = re.fullmatch(r'F(\d+)\[(.*)\]', lab)
+            nodes[k] = ('F', [x for x in m.group(2).split('/') if x != ''])
+    edges = set() if d['edges'] == '[]' else set(tuple(e.split('>')) for e in d['edges'].split(','))
+    want = set((o, k) for k, (kind, v) in nodes.items() if kind == 'F' for o in v)
+    memo = {}
+
+    def sig(k, depth=0):
+        if k not in nodes or depth > 50:
+            return '?'
+        if k not in memo:
+            kind, v = nodes[k]
+            memo[k] = 'L' + v if kind == 'L' else 'F(' + ','.join(sig(o, depth + 1) for o in v) + ')'
+        return memo[k]
+    sigs = sorted(sig(k) for k in nodes)
+    return 'graph n=%d edges_ok=%d sigs=%s' % (len(nodes), int(edges == want), '|'.join(sigs))
+
+
+def graph_cmp(a, b):
+    return canon_graph(a) == canon_graph(b)
+
+
+def ideal_graph(t):
+    """one node per leaf occurrence (per alias id for aliased leaves) and per operation; edges from each operation's inputs"""
+    nodes = []; edges = []; ctr = [1000]; alias = {}
+
+    def walk(t):
+        name, args = t
+        if not args:
+            m = re.fullmatch(r'(a?)(\d+)', name)
+            if m.group(1):
+                k = 'a' + m.group(2)
+                if k not in alias:
+                    alias[k] = str(int(m.group(2))); nodes.append('%s:L%s' % (alias[k], m.group(2)))
+                return alias[k]
+            ctr[0] += 1; nid = str(ctr[0]); nodes.append('%s:L%s' % (nid, m.group(2))); return nid
+        ins = [walk(a) for a in args]
+        ctr[0] += 1; nid = str(ctr[0])
+        nodes.append('%s:F%d[%s]' % (nid, len(ins), '/'.join(ins)))
+        for i in ins:
+            if '%s>%s' % (i, nid) not in edges:
+                edges.append('%s>%s' % (i, nid))
+        return nid
+    walk(t)
+    return 'ok nodes=%s edges=%s' % (','.join(nodes), ','.join(edges) if edges else '[]')
+
+
+def fmt_params(p):
+    out = []
+    for k in sorted(p):
+        if k == 'bshape':
+            continue
+        v = p[k]
+        out.append('%s=%s' % (k, fmt(v) if isinstance(v, (list, tuple)) else str(int(v))))
+    return ' '.join(out)
+
+
+def ext_cases(tier, rng):
+    ncase = 4 if tier == 'quick' else 30
+    for name, pg in EXT.items():
+        t = parse_term(pg['tree'])
+        h = 'h_c14_ext%d' % pg['group']
+        tplain = re.sub(r'\ba(\d+)', r'\1', pg['tree'])
+        made = tries = 0
+        while made < ncase and tries < 10 * ncase:
+            tries += 1
+            shapes, params = pg['gen'](rng)
+            env = [leaf(s, j, pg['data']) for j, s in enumerate(shapes)]
+            try:
+                res = np.asarray(eval_term(t, env, params))
+            except ValueError:
+                continue
+            if res.size == 0 or res.size > 64 or np.abs(res).max() >= 2 ** 31:
+                continue
+            made += 1
+            req = ' '.join(('c14_extract prog=%s shapes=%s %s data=%s' % (name, fmt_lists(shapes), fmt_params(params), pg['data'])).split())
+            off = pg['nonfirst'] or pg['bview']
+            oracle = 'ok leaves=%s result=%s' % (fmt(tree_leaves(t)), fmt_arr(res))
+            yield Case(req, h, dom=not off, oracle=oracle, mreq='c14_extract tree=%s' % tplain, cmp=make_extract_cmp(env, params),
+                       tags=['extract', 'prog=' + name, 'depth=%d' % tree_depth(t)] + (['nonfirst'] if pg['nonfirst'] else []) + (['bview'] if pg['bview'] else []))
+            if pg['graph'] and made <= 2:
+                greq = ' '.join(('c14_graph prog=%s shapes=%s %s data=%s' % (name, fmt_lists(shapes), fmt_params(params), pg['data'])).split())
+                yield Case(greq, h, dom=not pg['sibling'], oracle=ideal_graph(t), mreq='c14_graph tree=%s' % pg['tree'], cmp=graph_cmp,
+                           tags=['graph', 'prog=' + name, 'depth=%d' % tree_depth(t)] + (['sibling'] if pg['sibling'] else []))
+    # generate_alias: the hash behind the node ids
+    for i in range(40 if tier == 'quick' else 400):
+        ids = [rng.randrange(1033) for _ in range(rng.randint(1, 6))]
+        r = 0
+        for x in ids:
+            r = (r * 512 + x) % 1033
+        yield Case('c14_alias ids=%s' % fmt(ids), 'h_c14_ext1', oracle='ok %d' % r, tags=['alias'])
+
+
 def gen(tier, rng):
     yield from probe_cases(tier, rng)
+    yield from ext_cases(tier, rng)
 
 
-KNOWN_PREDICATES = {}
+def _args(c):
+    return dict(kv.split('=', 1) for kv in c.req.split()[1:] if '=' in kv)
+
+
+def nonfirst_view_operand(c):
+    return c.req.startswith('c14_extract ') and EXT.get(_args(c).get('prog'), {}).get('nonfirst', False)
+
+
+def ufunc_view_operand(c):
+    return c.req.startswith('c14_extract ') and EXT.get(_args(c).get('prog'), {}).get('bview', False)
+
+
+def sibling_subviews_unaliased(c):
+    return c.req.startswith('c14_graph ') and EXT.get(_args(c).get('prog'), {}).get('sibling', False)
+
+
+KNOWN_PREDICATES = {'nonfirst_view_operand': nonfirst_view_operand, 'ufunc_view_operand': ufunc_view_operand,
+                    'sibling_subviews_unaliased': sibling_subviews_unaliased}
